@@ -270,3 +270,36 @@ func VH_C01_rules(kind, op1, op2, op3, eshape int) {
 	}
 	vreach("end")
 }
+
+// VH_C01_nested_optional: a when-pattern whose optional variable (??x) sits inside a nested
+// map only; the event lacks that property. Whatever the matcher says about pattern and
+// event, the state's rule lookup says the same (no matching rule skipped because of how
+// rules are indexed).
+func VH_C01_nested_optional(kind, shape int) {
+	env := vhNewEnv(kind)
+	s := vsymStrN("c", 3)
+	vassume(!IsVariable(s))
+	var when, event map[string]interface{}
+	switch shape {
+	case 0:
+		when = map[string]interface{}{"a": map[string]interface{}{"b": "??x"}, "c": s}
+		event = map[string]interface{}{"a": map[string]interface{}{}, "c": s}
+	case 1:
+		when = map[string]interface{}{"a": map[string]interface{}{"b": "??x", "d": "1"}, "c": s}
+		event = map[string]interface{}{"a": map[string]interface{}{"d": "1"}, "c": s}
+	case 2:
+		when = map[string]interface{}{"a": map[string]interface{}{"e": map[string]interface{}{"b": "??x"}}, "c": s}
+		event = map[string]interface{}{"a": map[string]interface{}{"e": map[string]interface{}{}}, "c": s}
+	}
+	_, err := env.state.Add(env.ctx, "r", vhRuleFact(when))
+	vassume(err == nil)
+	bss, merr := Matches(env.ctx, when, event)
+	vassume(merr == nil)
+	rs, ferr := env.state.FindRules(env.ctx, Map(event))
+	vassert(ferr == nil, "search-no-error")
+	if len(bss) > 0 {
+		_, found := rs["r"]
+		vassert(found, "matching-pattern-found")
+	}
+	vreach("end")
+}
